@@ -1,6 +1,7 @@
 package main
 
 import (
+	"math"
 	"fmt"
 	"sort"
 	"strconv"
@@ -10,7 +11,7 @@ import (
 // C14: hash commands against a reference field -> value map.
 
 func init() {
-	register("C14", familyCheck{&familySpec{Prop: "C14", Kinds: []string{"hash"}, Ref: refHash, Random: hashRandom, Sig: hashSig, LooseDeadlines: true,
+	register("C14", familyCheck{&familySpec{Prop: "C14", Kinds: []string{"hash"}, Ref: refHash, Random: hashRandom, Sig: hashSig, LooseDeadlines: true, Deep: []Action{cmd("HGETALL", "h"), cmd("HSET", "h", "f1", "w"), cmd("HSET", "h", "nf", "1"), cmd("HDEL", "h", "f1"), cmd("HDEL", "h", "f1", "f2", "f3"), cmd("HINCRBY", "h", "f2", "5"), cmd("HINCRBYFLOAT", "h", "f3", "1.5"), cmd("HINCRBY", "h", "nf", "abc"), cmd("HSETNX", "h", "f1", "n"), cmd("HLEN", "h"), cmd("HKEYS", "h"), cmd("HVALS", "h"), cmd("HRANDFIELD", "h", "-3"), cmd("HSTRLEN", "h", "f1")},
 		Title: "refHash (a Go map field -> value text: HSET/HSETNX/HDEL, integer and float increments, exact readers, sized random selections)"}})
 }
 
@@ -110,6 +111,13 @@ func refHash1(db map[string]AVal, a []string, now int64) *refExp {
 	h := map[string]string{}
 	for f, x := range v.H {
 		h[f] = hval(x)
+	}
+	for _, x := range h {
+		// a field holding a non-finite or huge float (reachable through HINCRBYFLOAT inf / nan / 1e308) has no specified
+		// rendering: commands on such a hash are not judged (an error must still change nothing)
+		if fv, err := strconv.ParseFloat(x, 64); err == nil && (math.IsInf(fv, 0) || math.IsNaN(fv) || math.Abs(fv) > 1e15) {
+			return nil
+		}
 	}
 	put := func(m map[string]string) map[string]AVal {
 		p := cloneDB(db)
@@ -300,6 +308,9 @@ func refHash1(db map[string]AVal, a []string, now int64) *refExp {
 		inc, err := strconv.ParseFloat(a[3], 64)
 		if err != nil {
 			return errExp("increment is not a number")
+		}
+		if math.IsInf(inc, 0) || math.IsNaN(inc) || math.Abs(inc) > 1e300 {
+			return nil // non-finite or overflowing increments are not specified (only: an error must change nothing)
 		}
 		cur := 0.0
 		if x, ok := h[a[2]]; ok {
